@@ -271,6 +271,12 @@ def apply(mid: str, m: dict, i: int):
             return None
         C[i]["name"] = "m x"
         return ["m x"]
+    if mid == "selm_choice_space_list_used_before":
+        if C[i]["list_name"] != "M":
+            return None
+        C[i]["name"] = "m x"
+        S.insert(len(m["survey"]) - len([r for r in m["survey"] if r]), dict(type="select_one M", name="reads_m_first", label="RMF"))
+        return ["m x"]
     # ---- form-level
     if mid == "no_survey_sheet":
         m["drop"].append("survey")
